@@ -19,9 +19,6 @@ def in_domain(c):
     if "ast" not in c:
         return True
     for n in walk(c["ast"]["body"]):
-        # known finding F10: documented implementing definition directly after a member/test declaration
-        if n["kind"] in ("member", "test") and n.get("impl") and n["impl"].get("doc") is not None:
-            return False
         if n.get("rawargs") is not None:
             return False
     return True
@@ -37,7 +34,13 @@ def run(rep, model, tier, seed, broken=()):
                  "bodies, in if/foreach blocks, nested, sibling and later definitions, member/test "
                  "implementations, file level) x random trigger strings x strip regexes; projection = "
                  "function/macro entries with doc blanked; non-trivial = >= 2 entries; distinct by file bytes")
+    import oracle
+    oracle.c03_oracle(rep)
     pipe.crosscheck(rep)
 
 
-replay = std_replay
+def replay(obj):
+    if obj.get('oracle'):
+        import oracle
+        return oracle.replay(obj)
+    return std_replay(obj)
